@@ -686,7 +686,7 @@ func (c *checkCtx) writeEvidence() {
 	cov := map[string]J{
 		"evaluations":                   c.evaluations,
 		"distinct_nontrivial":           len(c.nontrivial),
-		"rule":                          c.plan.rule,
+		"rule":                          c.plan.rule + ruleMore[c.id],
 		"samples":                       c.samples,
 		"states":                        c.states,
 		"transitions":                   c.transitions,
